@@ -48,11 +48,14 @@ Qed.
 
 Lemma guess_in_bracket tp tf no n tg :
   0 < n -> n <= tg -> tg < no ->
-  Qltb (tf - tp) (norm_t_tol QN o) = false ->
+  Qle_bool tf (tp + norm_t_tol QN o) = false ->
   let g := clamp_guess QN o tp (secant QN lg tp tf no n tg) in
   tp < g /\ g <= tf.
 Proof.
-  intros Hn Hle Hlt Hw. apply Qltb_false in Hw.
+  intros Hn Hle Hlt Hw0.
+  assert (Hw : norm_t_tol QN o <= tf - tp).
+  { assert (tp + norm_t_tol QN o < tf); [|lra].
+    apply Qnot_le_lt. intros C. apply Qle_bool_iff in C. congruence. }
   destruct (ratio_facts no n tg Hn Hle Hlt) as (R1 & R2).
   destruct (Hlg _ _ R1 R2) as (L1 & L2).
   set (l1 := lg (no / tg)) in *. set (l2 := lg (no / n)) in *.
@@ -80,7 +83,7 @@ Proof.
   induction fuel as [|f IH]; intros tries sg reqs cur tp tf no n tg Hb Hn Hle Hlt Hc;
     cbn [fct_loop].
   - intros r Hr; left; exact Hr.
-  - destruct (ltb QN (sub QN tf tp) (norm_t_tol QN o)) eqn:Hw.
+  - destruct (leb QN tf (add QN tp (norm_t_tol QN o))) eqn:Hw.
     + split; [intros r Hr; left; exact Hr|]. destruct Hc; subst; lra.
     + pose proof (guess_in_bracket tp tf no n tg Hn Hle Hlt Hw) as G.
       set (g := clamp_guess QN o tp (secant QN lg tp tf no n tg)) in *.
@@ -406,66 +409,6 @@ Definition stag_lg : Q -> Q := fun x => x - 1.
 Definition stag_stp : nat -> Q -> Q -> Q := fun _ _ g => g.
 Definition stag_tg : Q := 97#100.
 
-Ltac eval_cond :=
-  match goal with
-  | |- context [if ?c then _ else _] =>
-      let v := eval vm_compute in c in change c with v; cbv iota
-  end.
-
-Lemma stag_step n f tries reqs :
-  fct_loop QN (stag_o n) stag_nrm2 stag_lg stag_stp (S f) tries 0 reqs
-           (1#10) 0 (1#10) 1 (19#20) stag_tg
-  = fct_loop QN (stag_o n) stag_nrm2 stag_lg stag_stp f (S tries) 0 ((1#10) :: reqs)
-             (1#10) 0 (1#10) 1 (19#20) stag_tg.
-Proof.
-  cbn [fct_loop]. cbv zeta. eval_cond.
-  set (g := clamp_guess QN (stag_o n) 0 (secant QN stag_lg 0 (1#10) 1 (19#20) stag_tg)).
-  assert (Eg : g = 1#10) by (vm_compute; reflexivity). rewrite Eg.
-  change (stag_stp 0%nat (1#10) (1#10)) with (1#10).
-  assert (En : stag_nrm2 0%nat (1#10) = 19#20) by (vm_compute; reflexivity). rewrite En.
-  eval_cond. eval_cond. reflexivity.
-Qed.
-
-Lemma stag_first n f tries reqs :
-  fct_loop QN (stag_o n) stag_nrm2 stag_lg stag_stp (S f) tries 0 reqs
-           1 0 1 1 (1#2) stag_tg
-  = fct_loop QN (stag_o n) stag_nrm2 stag_lg stag_stp f (S tries) 0 ((1#10) :: reqs)
-             (1#10) 0 (1#10) 1 (19#20) stag_tg.
-Proof.
-  cbn [fct_loop]. cbv zeta. eval_cond.
-  set (g := clamp_guess QN (stag_o n) 0 (secant QN stag_lg 0 1 1 (1#2) stag_tg)).
-  assert (Eg : g = 1#10) by (vm_compute; reflexivity). rewrite Eg.
-  change (stag_stp 0%nat 1 (1#10)) with (1#10).
-  assert (En : stag_nrm2 0%nat (1#10) = 19#20) by (vm_compute; reflexivity). rewrite En.
-  eval_cond. eval_cond. reflexivity.
-Qed.
-
-Lemma stag_forever n : forall f tries reqs,
-  exists rq, fct_loop QN (stag_o n) stag_nrm2 stag_lg stag_stp f tries 0 reqs
-                      (1#10) 0 (1#10) 1 (19#20) stag_tg = LoopEnd QN (tries + f) rq /\
-             (forall r, In r rq -> In r reqs \/ r = 1#10).
-Proof.
-  induction f as [|f IH]; intros tries reqs.
-  - exists reqs. split; [cbn [fct_loop]; rewrite Nat.add_0_r; reflexivity|auto].
-  - rewrite stag_step. destruct (IH (S tries) ((1#10) :: reqs)) as (rq & E & H).
-    exists rq. split; [rewrite E; f_equal; lia|].
-    intros r Hr. destruct (H r Hr) as [[<- | Hin] | ->]; auto.
-Qed.
-
-(* for every norm_steps the search fails, asking for t = 1/10 every time *)
-Lemma stag_never_found : forall n,
-  fst (find_collapse QN (stag_o n) stag_nrm2 stag_lg stag_stp 0 1 0 1 1 (1#2) stag_tg) = None /\
-  (forall r, In r (snd (find_collapse QN (stag_o n) stag_nrm2 stag_lg stag_stp 0 1 0 1 1 (1#2) stag_tg))
-             -> r = 1#10).
-Proof.
-  intros n. unfold find_collapse. change (norm_steps QN (stag_o n)) with n.
-  destruct n as [|n].
-  - cbn [fct_loop]. split; [reflexivity|intros r []].
-  - rewrite stag_first. destruct (stag_forever (S n) n 1%nat [1#10]) as (rq & E & H).
-    change (T QN) with Q in *. rewrite E. split; [reflexivity|].
-    intros r Hr. cbn [snd] in Hr. destruct (H r Hr) as [[<- | []] | ->]; reflexivity.
-Qed.
-
 (* the crossing is bracketed, within norm_t_tol after t_prev, and the norm
    is strictly decreasing: nothing is wrong with the input *)
 Lemma stag_input_is_fine :
@@ -477,32 +420,15 @@ Proof.
   unfold stag_nrm2, stag_tg, stag_lg. repeat split; try (intros; lra); try reflexivity.
 Qed.
 
-(* the proposed repair of the width test: `t_final <= t_prev + norm_t_tol`
-   (the same expression the clamp uses) instead of
-   `t_final - t_prev < norm_t_tol` *)
-Fixpoint fct_loop_w (o : opts QN) (nrm2 : nat -> Q -> Q) (lg : Q -> Q) (stp : nat -> Q -> Q -> Q)
-         (fuel tries sg : nat) (reqs : list Q) (cur tp tf no n tg : Q) : loopres QN :=
-  match fuel with
-  | O => LoopEnd QN tries reqs
-  | S f =>
-    let tries := S tries in
-    if Qle_bool tf (tp + norm_t_tol QN o) then Broke QN tf cur tries reqs
-    else
-      let g := clamp_guess QN o tp (secant QN lg tp tf no n tg) in
-      let s := stp sg cur g in
-      let n2 := nrm2 sg s in
-      if Qltb (Qabs (tg - n2)) (norm_tol QN o * tg) then Broke QN g s tries (g :: reqs)
-      else if Qltb n2 tg then fct_loop_w o nrm2 lg stp f tries sg (g :: reqs) s tp g no n2 tg
-      else fct_loop_w o nrm2 lg stp f tries sg (g :: reqs) s g tf n2 n tg
-  end.
-
-Lemma stag_repaired :
-  fct_loop_w (stag_o 5) stag_nrm2 stag_lg stag_stp 5 0 0 [] 1 0 1 1 (1#2) stag_tg
+(* the input on which the search used to stagnate is accepted at the second
+   try, with the bracket [0, 1/10] *)
+Lemma stag_accepted :
+  fct_loop QN (stag_o 5) stag_nrm2 stag_lg stag_stp 5 0 0 [] 1 0 1 1 (1#2) stag_tg
   = Broke QN (1#10) (1#10) 2%nat [1#10].
 Proof. vm_compute. reflexivity. Qed.
 
-(* ---------------------------- progress of the repaired search (any input) *)
-(* With the width test `t_final <= t_prev + norm_t_tol` every iteration that
+(* ------------------------------------- progress of the search (any input) *)
+(* Every iteration that
    does not end the loop strictly shrinks the bracket, and the time it asks
    for lies strictly inside the bracket: no request is ever repeated. *)
 Section QProgress.
@@ -553,25 +479,25 @@ Definition strictly_in (tp tf r : Q) : Prop := tp < r /\ r < tf.
 Lemma fct_w_progress :
   forall fuel tries sg reqs cur tp tf no n tg,
     tp <= tf -> 0 < n -> n < tg -> tg < no ->
-    let res := fct_loop_w o nrm2 lg stp fuel tries sg reqs cur tp tf no n tg in
+    let res := fct_loop QN o nrm2 lg stp fuel tries sg reqs cur tp tf no n tg in
     exists new,
       (match res with Broke _ _ _ _ rq => rq | LoopEnd _ _ rq => rq end) = new ++ reqs /\
       NoDup new /\ (forall r, In r new -> strictly_in tp tf r).
 Proof.
   induction fuel as [|f IH]; intros tries sg reqs cur tp tf no n tg Hb Hn Hle Hlt;
-    cbn [fct_loop_w]; cbv zeta.
+    cbn [fct_loop]; cbv zeta.
   - exists []. split; [reflexivity|]. split; [constructor|intros r []].
-  - destruct (Qle_bool tf (tp + norm_t_tol QN o)) eqn:Hw.
+  - destruct (leb QN tf (add QN tp (norm_t_tol QN o))) eqn:Hw.
     + exists []. split; [reflexivity|]. split; [constructor|intros r []].
     + pose proof (guess_strictly_inside tp tf no n tg Hn Hle Hlt Hw) as G.
       set (g := clamp_guess QN o tp (secant QN lg tp tf no n tg)) in *.
       cbv zeta in G. destruct G as (G1 & G2).
       rewrite (Hstp sg cur g).
-      destruct (Qltb (Qabs (tg - nrm2 sg g)) (norm_tol QN o * tg)) eqn:Hn2.
+      destruct (ltb QN (absv QN (sub QN tg (nrm2 sg g))) (mul QN (norm_tol QN o) tg)) eqn:Hn2.
       * exists [g]. split; [reflexivity|]. split.
         -- constructor; [intros []|constructor].
         -- intros r [<-|[]]. split; assumption.
-      * destruct (Qltb (nrm2 sg g) tg) eqn:Hl.
+      * destruct (ltb QN (nrm2 sg g) tg) eqn:Hl.
         -- assert (Hl' : nrm2 sg g < tg) by (apply Qltb_true; exact Hl).
            assert (A1 : tp <= g) by lra.
            destruct (IH (S tries) sg (g :: reqs) g tp g no (nrm2 sg g) tg A1 (Hpos sg g) Hl' Hlt)
@@ -586,7 +512,7 @@ Proof.
               ** split; assumption.
         -- assert (Hl' : tg <= nrm2 sg g) by (apply Qltb_false; exact Hl).
            assert (Hgt : tg < nrm2 sg g).
-           { apply Qltb_false in Hn2.
+           { simpl in Hn2. apply Qltb_false in Hn2.
              assert (Hab : Qabs (tg - nrm2 sg g) == - (tg - nrm2 sg g)) by (apply Qabs_neg; lra).
              rewrite Hab in Hn2.
              assert (0 < norm_tol QN o * tg) by (apply Qmult_lt_0_compat; lra). lra. }
